@@ -5523,7 +5523,11 @@ def symlink_to_bytes(symlink_target):
      The UDF data corresponding to the symlink.
     """
     symlink_data = bytearray()
-    for comp in symlink_target.split('/'):
+    for index, comp in enumerate(symlink_target.split('/')):
+        if comp == '' and index > 0:
+            # Only a leading '/' means the root directory; an empty piece
+            # elsewhere ('a//b', 'a/b/') names nothing.
+            continue
         if comp == '':
             # If comp is empty, then we know this is the leading slash
             # and we should make an absolute entry (double slashes and
